@@ -54,7 +54,7 @@ RULES = [
      re.compile(r'(?m)^[ \t]*debug_assert(?:_eq)?!\((?:[^;]|\n)*?\);\s*\n'), ''),
     # R1: metric / codec generics
     ('R1a', 'impl<D: Distance> X<D> -> impl X', re.compile(r'impl<(?:\'\w+,\s*)?D: Distance>'), 'impl'),
-    ('R1k', 'generic RNG parameter: <R: Rng + SeedableRng> -> <R: Rng>', re.compile(r'<R: Rng \+ SeedableRng>'), '<R: Rng>'),
+    ('R1k', 'generic RNG parameter: R: Rng + SeedableRng -> R: Rng', re.compile(r'\bR: Rng \+ SeedableRng\b'), 'R: Rng'),
     ('R1b', 'Type<D> / Type<\'_, D> / Type<NodeCodec<D>> -> Type',
      re.compile(r'\b(Writer|Reader|Database|Node|Leaf|SplitPlaneNormal|FrozzenReader|ImmutableLeafs|ImmutableTrees|ImmutableSubsetLeafs|TmpNodes|QueryBuilder|ItemIter)<(?:\'\w+,\s*)?(?:D|ND|NodeCodec<D>)>'), r'\1'),
     ('R1c', 'D::f(..) -> Dist::f(..)', re.compile(r'\bD::(?=[a-zA-Z_])'), 'Dist::'),
